@@ -266,3 +266,51 @@ PROPS["C18"] = dict(
         S("small-ts-plain-vg", "io", ["--dir", "@TMP@"], (0, 0), (0, 0), forge={"quick": (6, 4, 2), "thorough": (60, 40, 25)}, valgrind=True, timeout=900),
     ],
 )
+
+THR_FAM = "mul,ech,ple,trsm,inv,solve,kernel,move,rowcol"
+PROPS["C15"] = dict(
+    level="exploration",
+    rule="case = one concurrent run: T in {2,3,4,8,16} threads released from a barrier, each executing its own seeded sequence of 12 calls (multiplication routes, "
+         "elimination, PLE/PLUQ, TRSM, inversion, solve, kernel, transpose/copy, row/column operations, with the init/free churn of their operands) on thread-private "
+         "matrices, sched_yield / short sleeps between calls; oracles: ThreadSanitizer reports captured in-process (__tsan_on_report), any report with a library frame "
+         "is a violation keyed by the innermost library functions of the two accesses; every result is compared with the model inside the thread; the per-thread digest "
+         "sequence equals a sequential execution of the same sequences; evidence: pairs of calls of different threads that overlapped in time (one monotonic clock) and "
+         "which ops were seen concurrent; distinct = (build, T, number of ops seen concurrent); non-trivial = at least one pair of calls overlapped",
+    assumptions=MODEL + ["TSan sees only races between accesses the workload performed; calibrated: same harness on the cache-enabled configuration gives > 200 reports"],
+    technique="runtime monitoring: ThreadSanitizer on a pthread stress harness + reference-model and sequential-replay oracles",
+    stages=[
+        S("small-ts-tsan", "threads", ["--fam", THR_FAM], (60, 160), (1500, 400), timeout=300),
+        S("host-ts-tsan", "threads", ["--fam", THR_FAM], (20, 260), (400, 700), timeout=300),
+    ],
+    require_tags={"quick": ["T=2", "T=16", "overlapping_call_pairs=10-99"], "thorough": ["T=2", "T=16"]},
+)
+
+OMP_FAM = "mul,ech"
+def _c16_stages(tier):
+    st = []
+    nthr = [1, 2, 3, 4, 5, 8, 16] if tier == "thorough" else [1, 2, 3, 16]
+    for t in nthr:
+        for nested in ((1, 2) if tier == "thorough" or t == 3 else (1,)):
+            env = {"OMP_NUM_THREADS": str(t), "OMP_MAX_ACTIVE_LEVELS": str(nested), "OMP_NESTED": "true" if nested > 1 else "false"}
+            st.append(S("host-gomp-asan", "func", ["--fam", OMP_FAM, "--mindim", "1100"], (14, 1500), (220, 2600), env=env, timeout=900))
+    # small triple: the recursion (Strassen inside the four mp sections) is deep here
+    for t in ([2, 4, 7] if tier == "thorough" else [4]):
+        st.append(S("small-gomp-asan", "func", ["--fam", OMP_FAM], (150, 700), (4000, 1300), env={"OMP_NUM_THREADS": str(t)}, timeout=900))
+    # races inside parallel regions: clang + libomp + Archer
+    for t in ([2, 4, 16] if tier == "thorough" else [4, 16]):
+        env = {"OMP_NUM_THREADS": str(t), "OMP_TOOL_LIBRARIES": "/usr/lib/llvm-14/lib/libarcher.so",
+               "TSAN_OPTIONS": "halt_on_error=0:ignore_noninstrumented_modules=1:report_signal_unsafe=0:history_size=4"}
+        st.append(S("host-omp-archer", "threads", ["--arg", "omp", "--fam", OMP_FAM, "--reps", "3", "--mindim", "1100"], (5, 1500), (100, 2400), env=env, timeout=900))
+    return st
+PROPS["C16"] = dict(
+    level="exploration",
+    rule="results monitor: mzd_mul_mp, mzd_addmul_mp, mzd_mul, mzd_addmul, M4RM and M4RI elimination routes in the OpenMP builds (libgomp) with OMP_NUM_THREADS in "
+         "1..16, nested regions on/off, shapes >= 1100 rows (host cache triple: static chunks of 512 rows spread over threads) with remainder strips that are not "
+         "multiples of 128, supplied dirty destinations; every result compared with the model (hence with the sequential build, whose results C01/C02 compare with the "
+         "same model); race monitor: the same calls in a clang+libomp build under ThreadSanitizer with the Archer OMPT tool (teaches TSan OpenMP's synchronisation), "
+         "any report with a library frame is a violation; distinct = (build, threads, route, regime, shape class); non-trivial as C01/C02",
+    assumptions=MODEL + ["libgomp itself is not understood by TSan, so races are looked for with libomp+Archer and results under both runtimes",
+                         "calibrated on a scratch copy: dropping private(x,t) from the M4RM row loop gives TSan reports in one 1400-row product"],
+    technique="runtime monitoring: reference-model oracle under varying OMP_NUM_THREADS + ThreadSanitizer/Archer on OpenMP regions",
+    stages=_c16_stages,
+)
